@@ -53,7 +53,7 @@ template<class C> struct Seg {
   void opNew(int i, long k) {
     drop(i);
     sk[i].reset(new SK((uint32_t)k));
-    prof[i] = (int)g.below(5); eqw[i] = g.chance(50) ? 1 : g.range(2, 60);
+    prof[i] = (int)g.below(7); eqw[i] = g.chance(50) ? 1 : g.range(2, 60);
     Ev e("New"); e.i("id", i).i("profile", prof[i]); scal(e, *sk[i]).emit();
   }
   void opNewInvalid() {
@@ -73,11 +73,13 @@ template<class C> struct Seg {
       case 2: w = g.range(1, 100); break;
       case 3: { static const long P[] = {1, 2, 4}; w = P[g.below(3)]; break; }
       case 4: w = g.chance(3) ? 100 : 1; break;                  // rare heavy item
+      case 5: w = 256L << g.below(5); break;                     // heavy regime: 256..4096 (few items, see canUpdate)
+      case 6: w = 1000 * g.range(1, 4); break;                   // heavy regime: 1000..4000
     }
     if (total[i] + w > CAP) w = 1;
     return w;
   }
-  bool canUpdate(int i) { return sk[i] && total[i] + 1 <= MCAP && ids[i].size() < 2500; }
+  bool canUpdate(int i) { return sk[i] && total[i] + 1 <= MCAP && ids[i].size() < (prof[i] >= 5 ? 12u : 2500u); }
   void opUpdate(int i, long w, bool rv) {
     int id = nextId++; T item = C::item(id);
     std::string threw;
@@ -196,6 +198,43 @@ template<class C> struct Seg {
     for (int i = 0; i < NS; i++) if (sk[i]) { opGetResult(i); opIterate(i); }
   }
   // directed: merging an EMPTY sketch that was configured with a smaller k (both overloads, both directions)
+  // merges of operands living in strongly different weight regimes: many very light items against few heavy ones
+  // (weight ratio 10^2..10^4, all integers), so that the order by n and the order by cumulative weight disagree;
+  // every combination of receiver (light / heavy) and overload (lvalue / rvalue), with equal and unequal k,
+  // followed by results, iteration and further updates of the merged sketch
+  void runRegimes(long rounds) {
+    for (long r = 0; r < rounds; r++) {
+      int combo = (int)(r % 4);                       // bit 0: receiver is the light sketch; bit 1: rvalue
+      long kl = g.range(2, 9), kh = g.chance(50) ? kl : g.range(2, 9);
+      long nl = g.range(8, 60), nh = g.range(1, 7);   // the light sketch always has MORE items ...
+      long lw = g.chance(70) ? 1 : g.range(1, 3);
+      long hw = g.chance(50) ? (64L << g.below(7)) : 1000 * g.range(1, 5);   // ... and far LESS weight: 64..4096 or 1000..5000 per heavy item
+      opNew(0, kl); prof[0] = 0; eqw[0] = lw;
+      for (long t = 0; t < nl; t++) opUpdate(0, g.chance(85) ? lw : g.range(1, 3), g.chance(40));
+      opNew(1, kh); prof[1] = 0; eqw[1] = hw;
+      for (long t = 0; t < nh; t++) opUpdate(1, g.chance(80) ? hw : hw / 2 + g.range(0, 9), g.chance(40));
+      if (!sk[0] || !sk[1]) continue;
+      if (g.chance(30)) { opGetResult(0); opGetResult(1); }
+      int dst = (combo & 1) ? 0 : 1, src = 1 - dst; bool rv = (combo & 2) != 0;
+      opMerge(dst, src, rv);
+      if (!sk[dst]) continue;
+      opGetResult(dst); opIterate(dst); opGetResult(dst);
+      long more = g.range(1, 6);
+      for (long t = 0; t < more && sk[dst]; t++) { opUpdate(dst, g.chance(50) ? lw : hw, g.chance(40)); }
+      if (sk[dst]) { opGetResult(dst); opIterate(dst); }
+      // a second merge on top (the merged sketch against a fresh one of the other regime)
+      if (sk[dst] && g.chance(50)) {
+        bool heavy2 = g.chance(50); long n2 = heavy2 ? g.range(1, 4) : g.range(10, 40);
+        opNew(2, g.range(2, 9)); prof[2] = 0;
+        for (long t = 0; t < n2; t++) opUpdate(2, heavy2 ? hw * 2 : lw, false);
+        if (sk[2] && total[dst] + total[2] <= MCAP) {
+          if (g.chance(50)) opMerge(dst, 2, g.chance(50)); else { opMerge(2, dst, g.chance(50)); dst = 2; }
+          if (sk[dst]) { opGetResult(dst); opIterate(dst); if (canUpdate(dst)) opUpdate(dst, lw, false); if (sk[dst]) opGetResult(dst); }
+        }
+      }
+      for (int i = 0; i < NS; i++) drop(i);
+    }
+  }
   void directedEmptyMerge() {
     opNew(0, 10); prof[0] = 1; for (int t = 0; t < 30; t++) opUpdate(0, drawW(0), false);
     opNew(1, 3);
@@ -224,7 +263,7 @@ static void stat_event(vt::Rng& g, uint64_t seed, int which, bool merge) {
       ebpps_sketch<int64_t> b((uint32_t)k2);
       for (int i = 1; i <= split; i++) a.update((int64_t)i, (double)w[i]);
       for (int i = split + 1; i <= m; i++) b.update((int64_t)i, (double)w[i]);
-      if (t % 2) a.merge(b); else { b.merge(a); a = b; }
+      switch (t % 4) { case 0: a.merge(b); break; case 1: b.merge(a); a = b; break; case 2: a.merge(std::move(b)); break; default: b.merge(std::move(a)); a = b; }
     }
     if (viaIter) { for (auto it = a.begin(); it != a.end(); ++it) { int64_t v = *it; if (v >= 1 && v <= m) count[(size_t)v - 1]++; } }
     else { auto r = a.get_result(); for (auto v : r) if (v >= 1 && v <= m) count[(size_t)v - 1]++; }
@@ -248,6 +287,11 @@ int main(int argc, char** argv) {
   random_utils::override_seed(seed);
   long segno = 0;
   if (directed) { Ev("Begin").i("seg", segno++).str("type", "i64").str("kind", "directed-empty-merge").emit(); Seg<ConvI> s(g, maxk); s.directedEmptyMerge(); }
+  long regimes = vt::argl(argc, argv, "--regimes", 24);
+  if (regimes > 0) {
+    { Ev("Begin").i("seg", segno++).str("type", "i64").str("kind", "regimes").emit(); Seg<ConvI> s(g, maxk); s.runRegimes(regimes); }
+    { Ev("Begin").i("seg", segno++).str("type", "str").str("kind", "regimes").emit(); Seg<ConvS> s(g, maxk); s.runRegimes(regimes / 2); }
+  }
   for (long seg = 0; seg < segments; seg++) {
     bool str = (seg % 2 == 1);
     Ev("Begin").i("seg", segno++).str("type", str ? "str" : "i64").str("kind", "random").emit();
